@@ -367,6 +367,10 @@ func (d *Decoder) unmarshal(val reflect.Value, tagType byte) error {
 		if listLen < 0 {
 			return errors.New("list length less than 0")
 		}
+		if listType == TagEnd && listLen > 0 {
+			// TAG_End has no payload: its "elements" would be decoded without consuming anything
+			return errors.New("non-empty list of TAG_End")
+		}
 		if listType > TagLongArray {
 			// the element decoder is only asked per element: an empty list has to be checked here
 			return fmt.Errorf("unknown list element type %#02x", listType)
@@ -658,6 +662,10 @@ func (d *Decoder) rawRead(tagType byte) error {
 		}
 		if listLen < 0 {
 			return errors.New("list length less than 0")
+		}
+		if listType == TagEnd && listLen > 0 {
+			// TAG_End has no payload: its "elements" would be decoded without consuming anything
+			return errors.New("non-empty list of TAG_End")
 		}
 		if listType > TagLongArray {
 			// the element decoder is only asked per element: an empty list has to be checked here
